@@ -9,6 +9,7 @@ import (
 // c02Oracle: an accepted program never crashes, wedges or confuses the host - on either
 // backend, including inputs whose result the language leaves open.
 func c02Oracle(pc progCase, r *Result) {
+	markVolatile(pc, r)
 	a := Analyze(map[string]string{"main": pc.P.Text}, true)
 	if a.Obs.Class == "HOST-PANIC" {
 		r.Note("analyzer-panic(C05)", 1)
@@ -37,6 +38,7 @@ func c02Oracle(pc progCase, r *Result) {
 
 // c04Oracle: interpreter and VM agree on output and outcome class.
 func c04Oracle(pc progCase, r *Result) {
+	markVolatile(pc, r)
 	a := Analyze(map[string]string{"main": pc.P.Text}, true)
 	if a.Obs.Class == "HOST-PANIC" || !a.Obs.Accepted() {
 		r.Note("not-accepted", 1)
